@@ -160,6 +160,8 @@ def to_python(text):
     t = re.sub(r"^(\s*def \w+\(.*\) -> [^:]+): \.\.\.$", r"\1:\n\1    pass", t, flags=re.M)
     t = re.sub(r"^(\s*)const (\w+)(: [^=]+)? =", r"\1\2 =", t, flags=re.M)
     t = t.replace(".contains(", ".__contains__(")
+    t = re.sub(r"\(([A-Za-z_][\w]*(?:, [A-Za-z_][\w]*)*)\) => ", r"lambda \1: ", t)  # closures
+    t = re.sub(r"\b([A-Za-z_]\w*)\.(\d+)\b", r"\1[\2]", t)  # tuple fields t.0 -> t[0]
     return t
 
 
